@@ -263,6 +263,9 @@ def check(run: Run) -> None:
 
     # ---------------- R4
     check_env_merge(run, m, "C08.R4")
+    from .c07 import check_inherited_lookup
+
+    check_inherited_lookup(run, m, "C08.R5")
 
 
 def strip_visits_attr(t):
@@ -313,6 +316,11 @@ def _decision(run: Run, ctx, fi: FuncInfo, roles, domain, ops, spec, rule: str) 
             if isinstance(a, ast.Attribute) and a.attr in roles:
                 role_of[n.targets[0].id] = roles[a.attr]
     if set(role_of.values()) != set(roles.values()):
+        missing_roles = sorted(set(roles.values()) - set(role_of.values()))
+        if role_of and len(role_of) >= len(set(roles.values())):
+            # as many type variables as operands, but two of them read the same operand
+            run.fail(rule, fi, fi.node, f"{fi.name} never looks up the type of operand {[k for k, v in roles.items() if v in missing_roles]}: {role_of} - both type variables read the same operand, so e.g. float * int is typed from the int alone", "one lookup_type per operand")
+            return
         raise AnalysisError(f"{fi.name}: operand type variables not recognised ({role_of})")
     bad = []
     n_points = 0
